@@ -370,28 +370,41 @@ def attrAddress (u : UnitCtx) (secs : Sections) : AttrVal → Out (Option Nat)
     pure (some a)
   | _ => .ok none
 
-/-- the attribute loop of `Unit::new_with_abbreviations` over the root DIE, as far as these helpers
-are concerned: later attributes override earlier ones, a base attribute counts only as a section
-offset, `DW_AT_low_pc` is resolved last (with the final `addr_base`; an indexed address that cannot
-be looked up fails the construction of the unit). -/
+/-- one iteration of the attribute loop of `Unit::new_with_abbreviations` over the root DIE, as far
+as these helpers are concerned: a base attribute counts only as a section offset and overrides what
+was there; the `DW_AT_low_pc` value is remembered -/
+def basesStep (st : UnitCtx × Option AttrVal) (a : AttrName × AttrVal) : UnitCtx × Option AttrVal :=
+  match a with
+  | (.lowPc, v) => (st.1, some v)
+  | (.addrBase, .secOffset o) => ({ st.1 with addrBase := o }, st.2)
+  | (.rnglistsBase, .secOffset o) => ({ st.1 with rnglistsBase := o }, st.2)
+  | (.loclistsBase, .secOffset o) => ({ st.1 with loclistsBase := o }, st.2)
+  | _ => st
+
+/-- the unit before its root DIE is looked at: `low_pc = 0`, `addr_base = 0`, default list bases -/
+def initialUnit (c : Cfg) (dwo : Bool) : UnitCtx :=
+  { cfg := c, dwo := dwo, lowPc := 0, addrBase := 0,
+    rnglistsBase := defaultListsBase c dwo, loclistsBase := defaultListsBase c dwo }
+
+/-- `Unit::new_with_abbreviations`, the part these helpers depend on: later attributes override
+earlier ones, `DW_AT_low_pc` is resolved last (with the final `addr_base`; an indexed address that
+cannot be looked up fails the construction of the unit). -/
 def unitBases (c : Cfg) (dwo : Bool) (secs : Sections) (root : Attrs) : Out UnitCtx :=
-  let step (st : UnitCtx × Option AttrVal) (a : AttrName × AttrVal) : UnitCtx × Option AttrVal :=
-    match a with
-    | (.lowPc, v) => (st.1, some v)
-    | (.addrBase, .secOffset o) => ({ st.1 with addrBase := o }, st.2)
-    | (.rnglistsBase, .secOffset o) => ({ st.1 with rnglistsBase := o }, st.2)
-    | (.loclistsBase, .secOffset o) => ({ st.1 with loclistsBase := o }, st.2)
-    | _ => st
-  let init : UnitCtx :=
-    { cfg := c, dwo := dwo, lowPc := 0, addrBase := 0,
-      rnglistsBase := defaultListsBase c dwo, loclistsBase := defaultListsBase c dwo }
-  let (u, low) := root.foldl step (init, none)
+  let (u, low) := root.foldl basesStep (initialUnit c dwo, none)
   match low with
   | none => .ok u
   | some v => do
     match ← attrAddress u secs v with
     | some a => pure { u with lowPc := a }
     | none => pure u
+
+/-- `Unit::copy_relocated_attributes`: a split unit takes the relocated attributes of its skeleton
+unit — `low_pc`, `addr_base` and, before DWARF 5 (GNU split DWARF), the ranges base -/
+def copyRelocated (self other : UnitCtx) : UnitCtx :=
+  { self with
+    lowPc := other.lowPc
+    addrBase := other.addrBase
+    rnglistsBase := if self.cfg.version < 5 then other.rnglistsBase else self.rnglistsBase }
 
 /-- `Dwarf::ranges_offset_from_raw`: GNU split DWARF v4 offsets are relative to
 `DW_AT_GNU_ranges_base` (`usize::wrapping_add`) -/
@@ -464,8 +477,15 @@ def dieRangesLoop (u : UnitCtx) (secs : Sections) : Attrs → DieAcc → Out (Di
     | none => dieRangesLoop u secs rest acc
   | _ :: rest, acc => dieRangesLoop u secs rest acc
 
+/-- the filter of `die_ranges` on its single range: `range.filter(|r| r.begin < min_tombstone &&
+r.begin < r.end)` — tombstone, empty and inverted ranges are skipped as in `convert_raw` -/
+def keepSingle (s : Nat) : Option (Nat × Nat) → Option (Nat × Nat)
+  | some (b, e) => if b < minTombstone s ∧ b < e then some (b, e) else none
+  | none => none
+
 /-- `Dwarf::die_ranges` (and `Dwarf::unit_ranges` on the root DIE's attributes). The single
-`low_pc..high_pc` range is returned as it is: NOT filtered for emptiness or tombstones. -/
+`low_pc..high_pc` range is computed (checked add for a constant `DW_AT_high_pc`: the overflow error
+comes first) and then filtered like a range-list entry. -/
 def dieRangesCore (u : UnitCtx) (secs : Sections) (attrs : Attrs) : Out RangesResult := do
   match ← dieRangesLoop u secs attrs {} with
   | .inr evs => pure (.list evs)
@@ -476,8 +496,8 @@ def dieRangesCore (u : UnitCtx) (secs : Sections) (attrs : Attrs) : Out RangesRe
       match acc.size with
       | some sz =>
         if 2 ^ 64 ≤ b + sz then .err .rAddressOverflow      -- checked_add
-        else pure (.single (some (b, b + sz)))
-      | none => pure (.single (acc.highPc.map fun e => (b, e)))
+        else pure (.single (keepSingle u.cfg.addrSize (some (b, b + sz))))
+      | none => pure (.single (keepSingle u.cfg.addrSize (acc.highPc.map fun e => (b, e))))
 
 /-- everything `RangeIter::next` returns until `Ok(None)` -/
 def RangesResult.events : RangesResult → List (Ev Item)
